@@ -398,6 +398,59 @@ func genC02(o *Out, rng *rand.Rand, tier string) {
 			}
 		}
 	}
+	// relay chains of 2..6 hops around messages of 0.5 .. 4 kB (an encoder that sizes its buffer for the common case
+	// meets a chain that does not fit), with relay options before and after the relayed message
+	for hops := 2; hops <= 6; hops++ {
+		for _, size := range []int{500, 900, 1100, 2100, 4200} {
+			m := &dhcpv6.Message{MessageType: dhcpv6.MessageTypeRequest}
+			copy(m.TransactionID[:], randBytes(rng, 3))
+			m.AddOption(randOpt6(rng, 1, 1))
+			m.AddOption(randOpt6(rng, 3, 2))
+			for len(m.ToBytes()) < size {
+				m.AddOption(&dhcpv6.OptionGeneric{OptionCode: dhcpv6.OptionCode(200 + rng.Intn(50)), OptionData: randBytes(rng, 100+rng.Intn(200))})
+			}
+			var d dhcpv6.DHCPv6 = m
+			for k := 0; k < hops; k++ {
+				r, _ := dhcpv6.EncapsulateRelay(d, dhcpv6.MessageTypeRelayForward, rip6(rng), rip6(rng))
+				if k%2 == 0 {
+					r.Options.Options = append(dhcpv6.Options{dhcpv6.OptInterfaceID(randBytes(rng, 1+rng.Intn(40)))}, r.Options.Options...)
+				} else {
+					r.AddOption(&dhcpv6.OptRemoteID{EnterpriseNumber: 9, RemoteID: randBytes(rng, rng.Intn(60))})
+				}
+				d = r
+			}
+			emit(d, "large-relay-chains")
+		}
+	}
+	// every combination of zero and non-zero among the numeric fields of the identity associations (zero has a meaning
+	// of its own for each of them - "left to the client", "no longer valid" - and none of them is the codec's business)
+	for mask := 0; mask < 32; mask++ {
+		z := func(bit int, v time.Duration) time.Duration {
+			if mask>>uint(bit)&1 == 1 {
+				return 0
+			}
+			return v
+		}
+		addr := &dhcpv6.OptIAAddress{IPv6Addr: net.ParseIP("2001:db8::9"), PreferredLifetime: z(2, 1800*time.Second), ValidLifetime: z(3, 3600*time.Second)}
+		if mask>>4&1 == 1 {
+			addr.PreferredLifetime, addr.ValidLifetime = 0xffffffff*time.Second, 0xffffffff*time.Second
+		}
+		ia := &dhcpv6.OptIANA{T1: z(0, 900*time.Second), T2: z(1, 1440*time.Second)}
+		ia.IaId = [4]byte{1, 2, 3, byte(mask)}
+		ia.Options.Options = dhcpv6.Options{addr}
+		pfx := &dhcpv6.OptIAPrefix{PreferredLifetime: addr.PreferredLifetime, ValidLifetime: addr.ValidLifetime,
+			Prefix: &net.IPNet{IP: net.ParseIP("2001:db8:1::"), Mask: net.CIDRMask(48, 128)}}
+		pd := &dhcpv6.OptIAPD{T1: ia.T1, T2: ia.T2}
+		pd.IaId = [4]byte{4, 3, 2, byte(mask)}
+		pd.Options.Options = dhcpv6.Options{pfx}
+		m := &dhcpv6.Message{MessageType: dhcpv6.MessageTypeReply}
+		copy(m.TransactionID[:], randBytes(rng, 3))
+		m.AddOption(ia)
+		m.AddOption(pd)
+		m.AddOption(dhcpv6.OptElapsedTime(0))
+		m.AddOption(dhcpv6.OptInformationRefreshTime(z(0, 600*time.Second)))
+		emit(m, "zero-and-nonzero-fields")
+	}
 	// numeric fields swept densely: a conversion that is wrong for a few per cent of the values (floating point, a
 	// narrowing cast, a sign) is met for certain, not by luck
 	{
@@ -698,6 +751,20 @@ func genC05(o *Out, rng *rand.Rand, tier string) {
 					q := append([]byte{0, t}, p[2:]...)
 					emit(append([]byte{5, 1, 2, 3, byte(c >> 8), byte(c), byte(L >> 8), byte(L)}, q...), "long-payload")
 				}
+			}
+		}
+	}
+	// (b2') every message type the first octet can name, with transaction ids of all shapes: read verbatim
+	for mt := 0; mt < 256; mt++ {
+		if mt == 12 || mt == 13 {
+			continue
+		}
+		for _, xid := range [][]byte{{0xff, 0xff, 0xff}, {0x5a, 0xc3, 0x17}, {0x80, 0, 0}, {0, 0, 0}} {
+			msg := append(append([]byte{byte(mt)}, xid...), 0, 8, 0, 2, 0, byte(mt))
+			emit(msg, "message-types")
+			if mt%5 == 0 {
+				relay := append(append([]byte{12, 1}, make([]byte, 32)...), 0, 9, 0, byte(len(msg)))
+				emit(append(relay, msg...), "message-types")
 			}
 		}
 	}
